@@ -9,6 +9,7 @@ order, so all connection kinds are covered at once.
 -/
 import MosaikProofs.Sched.Trace
 import MosaikProofs.Sched.WF
+import MosaikProofs.Build.RunConfig
 namespace Mosaik.C01
 open Mosaik
 
@@ -144,5 +145,29 @@ def exRun : List Action :=
 
 example : ((exec exCfg (initState exCfg) exRun).map fun s => (s.failed.isNone, (s.sims 0).begun, (s.sims 1).begun))
     = some (true, [[0]], [[0]]) := by decide
+
+/-- **causality for every built scenario** - without a `WFCfg` hypothesis: the configuration is the one `World.run` derives
+(`cache_triggering_ancestors`) from a scenario built by ANY valid sequence of `start` / `connect` / `set_initial_event` calls
+(`Build.run_config_wf`; `UniformT`: all trigger paths between two simulators have one cutoff, the complement of finding D7) -/
+theorem causal_run_built {ops : List Build.Op} (hv : Build.Valid {} ops) (hU : UniformT (Build.build ops).sims)
+    {orc : List Nat} {out : List SimCfg} (hc : cacheTriggeringAncestors (Build.build ops).sims orc = .ok out)
+    (until_ maxLoop : Nat) (lazy_ useCache strict : Bool) (as : List Action) {s s' : State}
+    (hr : Reach (Build.runCfg out until_ maxLoop lazy_ useCache strict) s)
+    (he : exec (Build.runCfg out until_ maxLoop lazy_ useCache strict) s as = some s') (hnf : s'.failed = none)
+    {C : Sid} (hC : C < (Build.runCfg out until_ maxLoop lazy_ useCache strict).n) {t : TT} (ht : t ∈ (s.sims C).begun)
+    {qd : Sid × TI} (hqd : qd ∈ ((Build.runCfg out until_ maxLoop lazy_ useCache strict).sim C).inputDelays)
+    (c : TT) (hc1 : c ∈ (s'.sims qd.1).begun) (hc2 : c ∉ (s.sims qd.1).begun) : t < TI.act c qd.2 :=
+  causal_run (Build.run_config_wf hv hU hc until_ maxLoop lazy_ useCache strict) as hr he hnf hC ht hqd c hc1 hc2
+
+/-- non-vacuity: a built scenario (A time-based, B hybrid, A.2 → B.1 a trigger connection) is valid, its ancestor table is
+computed, and its run configuration passes the executable form of `WFCfg` -/
+def exOps : List Build.Op :=
+  [ .start { ty := .timeBased, group := [], cls := (parseAttrs { anyInputs := false, attrs := some [0, 1, 2, 3] } .timeBased).getD default },
+    .start { ty := .hybrid, group := [], cls := (parseAttrs { anyInputs := false, attrs := some [0, 1, 2, 3], trigger := some [1], nonPersistent := some [3] } .hybrid).getD default },
+    .connect { src := 0, seid := 0, dst := 1, deid := 0, pairs := [(2, 1)] } ]
+
+example : (Build.build exOps).sims.length = 2 ∧ ((Build.build exOps).sim 0).triggers.length = 1 ∧
+    ((cacheTriggeringAncestors (Build.build exOps).sims []).toOption.map fun out => (Build.runCfg out 3 100 true true false).wfB) = some true := by
+  decide
 
 end Mosaik.C01
